@@ -84,6 +84,7 @@ def cases(tier, seed=0):
   cs += _ea.surplus_cases('setfl', tier)
   cs += _ea.after_failure_cases('setfl', tier)
   cs += _ea.shared_and_undeclared_cases('setfl', tier)
+  cs += _ea.written_first_cases('setfl', tier)
   return cs
 
 
